@@ -47,17 +47,22 @@ def KV.int (kv : KV) (k : String) : Int :=
   | some v => (parseInt? v).getD 0
   | none => 0
 
-/-- verdict accumulator -/
+/-- verdict accumulator; messages are kept per (property, what) class so that a frequent finding of
+    one property cannot crowd out another property's report -/
 structure Acc where
   lines : Nat := 0
   checked : Nat := 0
   disagree : Nat := 0
   specfail : Nat := 0
   out : Array String := #[]
+  classes : List (String × Nat) := []
 
 def Acc.report (a : Acc) (kind : String) (prop : String) (what : String) (line : String) : Acc :=
+  let key := kind ++ "|" ++ prop ++ "|" ++ what
+  let cnt := match a.classes.find? (fun p => p.1 == key) with | some p => p.2 | none => 0
+  let classes := (key, cnt + 1) :: a.classes.filter (fun p => p.1 != key)
   let msg := s!"{kind} n={a.lines} prop={prop} what={what} :: {line}"
-  let a := { a with out := if a.out.size < 200 then a.out.push msg else a.out }
+  let a := { a with classes := classes, out := if cnt < 12 && a.out.size < 5000 then a.out.push msg else a.out }
   if kind == "DISAGREE" then { a with disagree := a.disagree + 1 }
   else { a with specfail := a.specfail + 1 }
 
